@@ -8,6 +8,7 @@ import (
 	"fmt"
 	"sync"
 	"sync/atomic"
+	"time"
 
 	"github.com/massnetorg/mass-core/poc"
 	"github.com/massnetorg/mass-core/poc/pocutil"
@@ -25,13 +26,15 @@ type entry struct {
 }
 
 type fakeWorld struct {
-	mu       sync.Mutex
-	entries  map[string]*entry
-	running  *fakeDB              // the plot in progress (at most one expected)
-	events   chan string          // "start <ord>", "end <ord>"
-	deleted  []string             // keys of deleted entries
-	overlap  bool                 // two plots at once were observed
-	created  int
+	mu      sync.Mutex
+	entries map[string]*entry
+	running *fakeDB     // the plot in progress (at most one expected)
+	events  chan string // "start <ord>", "end <ord>"
+	deleted []string    // keys of deleted entries
+	overlap bool        // two plots at once were observed
+	created int
+	auto    bool // storm mode: a plot ends by itself after a moment (completed or not), no events
+	autoN   int
 }
 
 func ekey(dir string, ord int64, pk *pocec.PublicKey, bl int) string {
@@ -111,8 +114,21 @@ func (d *fakeDB) Plot() chan error {
 	d.w.mu.Unlock()
 	d.wg.Add(1)
 	go func() {
-		d.w.events <- fmt.Sprintf("start %d", d.e.ordinal)
-		done := <-d.cmd
+		var done bool
+		if d.w.auto {
+			d.w.mu.Lock()
+			d.w.autoN++
+			complete := d.w.autoN%3 == 0
+			d.w.mu.Unlock()
+			select {
+			case done = <-d.cmd:
+			case <-time.After(300 * time.Microsecond):
+				done = complete
+			}
+		} else {
+			d.w.events <- fmt.Sprintf("start %d", d.e.ordinal)
+			done = <-d.cmd
+		}
 		d.w.mu.Lock()
 		if done {
 			d.e.plotted = true
@@ -122,7 +138,9 @@ func (d *fakeDB) Plot() chan error {
 		result <- nil
 		atomic.StoreInt32(&d.plotting, 0)
 		d.wg.Done()
-		d.w.events <- fmt.Sprintf("end %d", d.e.ordinal)
+		if !d.w.auto {
+			d.w.events <- fmt.Sprintf("end %d", d.e.ordinal)
+		}
 	}()
 	return result
 }
@@ -144,8 +162,8 @@ func (d *fakeDB) StopPlot() chan error {
 	return result
 }
 
-func (d *fakeDB) Ready() bool { d.w.mu.Lock(); defer d.w.mu.Unlock(); return d.e.plotted }
-func (d *fakeDB) BitLength() int { return d.e.bl }
+func (d *fakeDB) Ready() bool              { d.w.mu.Lock(); defer d.w.mu.Unlock(); return d.e.plotted }
+func (d *fakeDB) BitLength() int           { return d.e.bl }
 func (d *fakeDB) PubKeyHash() pocutil.Hash { return pocutil.PubKeyHash(d.e.pk) }
 func (d *fakeDB) PubKey() *pocec.PublicKey { return d.e.pk }
 func (d *fakeDB) GetProof(challenge pocutil.Hash, filter bool) (*poc.DefaultProof, error) {
